@@ -310,7 +310,7 @@ def m_msm(I, a, e, ci):
     if not (isinstance(bases, Vec) and isinstance(scalars, Vec)):
         raise Unanalysable(f"msm({bases!r},{scalars!r})")
     lb, ls = bases.length(), scalars.length()
-    equal = eq(lb, ls)
+    equal = eq(lb, ls) or (le(lb, ls, I.bounds) and le(ls, lb, I.bounds))
     I.msm_log.append({"where": FX.short(e.get("sp")), "fn": I.fn_stack[-1] if I.fn_stack else "", "len_bases": lb, "len_scalars": ls, "equal": equal, "bases": bases, "scalars": scalars})
     if not equal:
         # msm returns Err on unequal lengths (ark-ec 0.4.2); the value is not used by any sink rule
